@@ -154,8 +154,8 @@ TEXT_CATS = PARSE_CATS + ("synerr-expression", "synerr-offset", "synerr-highligh
 def gen_text(ctx, mode, maxlen, stride, cats=TEXT_CATS, shards=None, contract=True):
     consts = {"Mode": mode, "MaxLen": maxlen}
     consts.pop("Stride3", None)
-    files = C.generate(ctx, "Gen_Text", mode, consts, shards or (8 if ctx.tier == Q else 16), stride=stride, timeout=3000,
-                       name="Gen_Text_%s_%d" % (mode, maxlen), family_constant=False)
+    files = C.generate(ctx, "Gen_Text", mode, consts, shards or (8 if ctx.tier == Q else 16), stride=stride,
+                       timeout=3000 if ctx.tier == Q else 9000, name="Gen_Text_%s_%d" % (mode, maxlen), family_constant=False)
     C.replay(ctx, files, set(cats), extra=["-contract"] if contract else [])
     ctx.bounds["text/%s/%d" % (mode, maxlen)] = {"stride": stride}
 
@@ -167,7 +167,7 @@ def mc_lex(ctx, maxlen, alpha="coarse", dev="{}", negative=False, invs=None, nam
 
 
 def c14(ctx):
-    ctx.rule = ("for every string s up to 3 (quick) / 4 (thorough) characters over a 32-symbol alphabet of character classes (letter, digit, _, "
+    ctx.rule = ("for every string s up to 3 characters (thorough: also a seeded half of the strings of 4 characters) over a 32-symbol alphabet of character classes (letter, digit, _, "
                 "space, the three quote characters, backslash, brackets, punctuation, u, control, tab, DEL, U+0080, 2/3/4-byte runes, U+FFFD): "
                 "the quoted identifier, raw string, JSON literal, multi-select key, length() and == spelled from s, each with the value the "
                 "property assigns; every 2-character string over all ASCII + boundary runes for identifier membership; non-trivial: the allowed "
@@ -176,7 +176,10 @@ def c14(ctx):
     mc_lex(ctx, 3 if quick else 4)
     mc_lex(ctx, 2, alpha="fine", invs=["NoPanic", "OffsetOK", "Unquoted", "QuotedId", "Pipeline"])
     mc_lexm(ctx, 3)      # the token values above are those of the rune-by-rune machine (Refines), also after an earlier failed call
-    gen_text(ctx, "c14", 3 if quick else 4, 1 if quick else 1, cats=EVAL_CATS, contract=False)
+    gen_text(ctx, "c14", 3, 1, cats=EVAL_CATS, contract=False)
+    if not quick:
+        # length 4: a seeded half of the 707 k strings (the whole set needs ~35 min of TLC time on 16 idle cores)
+        gen_text(ctx, "c14", 4, 2, cats=EVAL_CATS, contract=False)
     gen_text(ctx, "fine", 2, 1, cats=PARSE_CATS, contract=False)
     gen_text(ctx, "ident", 0, 1, cats=PARSE_CATS, contract=False)
     ctx.exhaustive = True
